@@ -169,6 +169,7 @@ func (g *cgraph) defineLen(x ssa.Value, depth int) {
 			if n := g.growCellLenLo(v); n > 0 {
 				g.le(zeroTerm, lt, -n)
 			}
+			g.memReverseScan(v, lt)
 			switch ad := v.X.(type) {
 			case *ssa.Global:
 				if n, ok := a.globalLen(ad); ok {
